@@ -33,6 +33,7 @@ type Violation struct {
 	ID      string // assertion id or "panic:<site>"
 	Msg     string
 	Known   []string // known-finding ids whose region covers this instance (empty: new)
+	Tag     string // lock discipline: the location (field) concerned
 	Inputs  []uint64
 	Kinds   []string
 	Path    []Decision
@@ -150,6 +151,7 @@ type Exec struct {
 	cur     *Frame
 
 	raceSeen   map[string]bool
+	writtenTags map[string]bool
 	forks      int
 	solverDead bool
 	witness    *Violation
